@@ -1,6 +1,7 @@
 """C18 — reserved CFDP messages (proxy, directory, originating ID) round-trip via message-to-user TLVs
 (CCSDS 727.0-B-5 §6.1-6.3)"""
 import random
+import zlib
 from typing import Any, Dict, Iterator, List, Optional
 
 import core
@@ -175,7 +176,31 @@ def _reserved_of(raw: bytes) -> Optional[ReservedCfdpMessage]:
         core.ISOLATION.check("ReservedCfdpMessage", r, _tlv_view)
         _need(bytes(r.value) == bytes(mu.value) and core.pack_stable(r, "ReservedCfdpMessage.pack() of a converted message") == bytes(mu.pack()),
               "reserved message differs from the message-to-user TLV it was converted from")
+    # the message was decoded out of a receive buffer (a bytearray) that the receiver reuses afterwards: the TLV, the
+    # reserved message made from it and every parameter its getters return are still the ones that were on the wire
+    # (one message in four, chosen by the octets themselves: run time)
+    if zlib.crc32(raw) & 3 == 0:
+        core.check_detached(_decode_both, raw, _detached_view, "MessageToUserTlv.unpack / to_reserved_msg_tlv",
+                            expect=_detached_view((mu, r)), memview=core.accepts_memoryview(MessageToUserTlv.unpack))
     return r
+
+
+def _decode_both(buf):
+    mu = MessageToUserTlv.unpack(buf)
+    return mu, mu.to_reserved_msg_tlv()
+
+
+def _detached_view(pair) -> Dict[str, Any]:
+    mu, r = pair
+    out = {"mu": _tlv_view(mu), "mu_raw": hx(mu.pack()), "reserved": r is not None}
+    if r is not None:
+        out["r"], out["r_raw"] = _tlv_view(r), hx(r.pack())
+        for g in GETTERS:
+            try:
+                out[g] = GET[g](r)
+            except ValueError:
+                out[g] = "!value"       # (a truncated message: the getter refuses, before and after)
+    return out
 
 
 # ---------------------------------------------------------------- raw-based ops
